@@ -282,6 +282,8 @@ pub struct World {
     pub state_hashes: std::collections::BTreeSet<u64>,
     pub drain_cap: u64,
     pub track_states: bool,
+    task_hash: Vec<u64>,
+    state_acc: u64,
 }
 
 #[derive(Clone, Debug, PartialEq)]
@@ -367,6 +369,8 @@ impl World {
             state_hashes: Default::default(),
             drain_cap: 50_000_000,
             track_states: true,
+            task_hash: vec![],
+            state_acc: 0,
         }
     }
 
@@ -575,18 +579,25 @@ impl World {
             self.trace.push(s);
         }
         if did && self.track_states {
-            // global-state fingerprint: per task (incarnations, outs so far, last out)
+            // global-state fingerprint, maintained incrementally: XOR over tasks of
+            // hash(task, incarnations, outs so far, last out)
+            let t = &self.tasks[ti];
             let mut f = Fold::new();
-            for t in &self.tasks {
-                f.add(t.incs.len() as u64);
-                let inc = t.incs.last().unwrap();
-                f.add(inc.outs.len() as u64);
-                if let Some(o) = inc.outs.last() {
-                    o.fold_into(&mut f);
-                }
+            f.add(ti as u64);
+            f.add(t.incs.len() as u64);
+            let inc = t.incs.last().unwrap();
+            f.add(inc.outs.len() as u64);
+            if let Some(o) = inc.outs.last() {
+                o.fold_into(&mut f);
             }
+            let h = f.get();
+            if self.task_hash.len() != self.tasks.len() {
+                self.task_hash = vec![0; self.tasks.len()];
+            }
+            self.state_acc ^= self.task_hash[ti] ^ h;
+            self.task_hash[ti] = h;
             if self.state_hashes.len() < 200_000 {
-                self.state_hashes.insert(f.get());
+                self.state_hashes.insert(self.state_acc);
             }
         }
         did
